@@ -1807,6 +1807,63 @@ fn abandoned_open_case(r: &mut Rng, focus: Focus) -> World {
     w
 }
 
+/// C03 / C04 / C07: windows far larger than the defaults — the writer's initial credit is the window the peer
+/// advertised, whatever its size: it can send that many frames unacknowledged, and a reader that keeps
+/// reading gets all of them (its acknowledgement comes only after `threshold` frames).
+fn large_window_case(r: &mut Rng, focus: Focus) -> World {
+    let mut oa = gen_opts(r, focus);
+    let mut ob = gen_opts(r, focus);
+    let wnd = *r.pick(&[600u32, 4096, 4097, 5000, 9000]);
+    // the reader's side: a large window, acknowledged rarely (threshold up to the window itself)
+    ob.rwnd = wnd;
+    ob.threshold = match r.below(3) { 0 => wnd, 1 => wnd - r.range(0, u64::from(wnd / 8)) as u32, _ => r.range(1, u64::from(wnd)) as u32 };
+    oa.rwnd = *r.pick(&[2u32, 8, wnd]);
+    oa.threshold = oa.threshold.min(oa.rwnd).max(1);
+    let mut w = World::new([oa, ob]);
+    for e in 0..2 {
+        let mut t = vec![s("rng")];
+        t.extend((0..8).map(|_| s(r.range(1, 0xffff_ffff))));
+        w.stim(e, &t);
+        w.view[e].rng_left = 8;
+    }
+    let req = w.next_req; w.next_req += 1;
+    w.stim(0, &[s("open"), s(req), hexd(&r.bytes(2)), s(1000 + req)]);
+    w.deliver_next(1);
+    w.stim(1, &[s("accept")]);
+    w.deliver_next(0);
+    if !w.view[0].handles.is_empty() && !w.view[1].handles.is_empty() {
+        let tag = r.next() as u8;
+        // the whole window in one-byte frames, the reader idle: every write is accepted
+        let reads_early = r.chance(1, 2);
+        for k in 0..wnd as usize {
+            let off = w.view[0].handles[0].written.len();
+            w.stim(0, &[s("write"), s(0), hexd(&[tag.wrapping_add((off % 251) as u8)])]);
+            if k % 64 == 63 || k + 1 == wnd as usize {
+                while w.deliver_next(1) {}
+                if reads_early { w.stim(1, &[s("read"), s(0), s(4096)]); while w.deliver_next(0) {} }
+            }
+        }
+        // one more: the window is used up unless the reader has acknowledged
+        let off = w.view[0].handles[0].written.len();
+        w.stim(0, &[s("write"), s(0), hexd(&[tag.wrapping_add((off % 251) as u8)])]);
+        // the reader takes everything there is (one frame per read), its acknowledgements travel back
+        for _ in 0..2 {
+            while w.deliver_next(1) {}
+            loop {
+                let out = w.stim(1, &[s("read"), s(0), s(4096)]);
+                if !out.starts_with("data") { break; }
+            }
+            while w.deliver_next(0) {}
+            // a writer left waiting tries again
+            if let Some(d) = w.view[0].handles[0].pending_write.clone() { w.stim(0, &[s("write"), s(0), hexd(&d)]); }
+        }
+        if r.chance(1, 2) && w.view[0].handles[0].pending_write.is_none() { w.stim(0, &[s("shutdown"), s(0)]); }
+    }
+    fair_completion(&mut w, 60);
+    final_checks(&mut w);
+    w
+}
+
 fn half_close_reply_case(r: &mut Rng, focus: Focus) -> World {
     let mut oa = gen_opts(r, focus);
     let ob = gen_opts(r, focus);
@@ -2182,6 +2239,7 @@ fn replay_lines(lines: &[String]) -> Option<World> {
     w.probe = true;
     fair_completion(&mut w, 40);
     final_checks(&mut w);
+    if let Some(wd) = WATCH.get() { wd.idle(); }
     Some(w)
 }
 
@@ -2487,6 +2545,8 @@ fn main() {
     let mut rng = Rng::new(args.seed ^ fnv(focus.name().as_bytes()));
 
     let mut handle_world = |w: World, origin: &str, rep: &mut Report, drv: &mut Option<Driver>| {
+        // the case is over: comparing with the model, shrinking and reporting are not calls into the implementation
+        if let Some(wd) = WATCH.get() { wd.idle(); }
         let lines = all_lines(&w);
         // the link model (on which the unbounded stream theorems are proved) against the implementation
         if let Some(ld) = link_drv.as_mut() {
@@ -2532,7 +2592,7 @@ fn main() {
             let key = f.1.clone();
             if rep.failures.iter().any(|g| g["key"] == format!("{}:{}", focus.name(), key)) { continue; }
             // (replaying a case with writes of megabytes is slow: a bounded number of shrinking attempts)
-            let mut budget = if w.huge { 30usize } else { usize::MAX };
+            let mut budget = if w.huge { 30usize } else if lines.len() > 800 { 40 } else { usize::MAX };
             let small = shrink_list(lines[2..].to_vec(), |cand| {
                 if budget == 0 { return false; }
                 budget -= 1;
@@ -2556,7 +2616,7 @@ fn main() {
                 if attr.contains(&focus.name()) || std::env::var("PVH_ALL_DIFFS").is_ok() {
                     // shrink while the first difference stays on the same kind of stimulus
                     let kind = w.steps[i].line.split(' ').next().unwrap_or("").to_string();
-                    let mut budget = if w.huge { 0usize } else { usize::MAX };
+                    let mut budget = if w.huge { 0usize } else if lines.len() > 800 { 12 } else { usize::MAX };
                     let small = shrink_list(lines[2..].to_vec(), |cand| {
                         if budget == 0 { return false; }
                         budget -= 1;
@@ -2610,6 +2670,18 @@ fn main() {
             let mut r = base.fork(k);
             match catch(|| half_close_reply_case(&mut r, focus)) {
                 Ok(w) => handle_world(w, "half-close-reply", &mut rep, &mut drv),
+                Err(p) => rep.fail(FailKind::Impl, "harness-panic", &format!("panic outside a stimulus: {p}"), json!({})),
+            }
+        }
+    }
+    // windows of thousands of frames
+    if matches!(focus, Focus::C03 | Focus::C04 | Focus::C07) {
+        let n = match args.tier { Tier::Quick => 3, Tier::Thorough => 40 };
+        let base = Rng::new(args.seed ^ fnv(focus.name().as_bytes()) ^ 0x6c61_7267_65);
+        for k in 0..n {
+            let mut r = base.fork(k);
+            match catch(|| large_window_case(&mut r, focus)) {
+                Ok(w) => handle_world(w, "large-window", &mut rep, &mut drv),
                 Err(p) => rep.fail(FailKind::Impl, "harness-panic", &format!("panic outside a stimulus: {p}"), json!({})),
             }
         }
